@@ -5,6 +5,8 @@ import TdVerif.Model.C08Apply
 import TdVerif.Model.C08Reduce
 import TdVerif.Model.C08Resize
 import TdVerif.Model.C08Out
+import TdVerif.Model.C08View
+import TdVerif.Model.C08UpdateAt
 
 namespace TdVerif.Drive
 open TdVerif Sexp TdVerif.C08
@@ -149,6 +151,17 @@ def handleC08 (cmd : String) (args : List Sexp) : Option Sexp :=
       match (convertEllipsis ix L.batch.length).bind fun ix' => idxShape ix' L.batch with
       | none => pure (tagged "err" [])
       | some ibs => pure (membersToSexp (lazySet L ix (mkValue ibs feats)))
+  -- (c08.update_at (bs ..) n sd (feats ..) (ix ..)) : the members after `lazy.update_at_(value, index)`
+  | "c08.update_at", [bs, n, sd, feats, ix] => do
+      let bs ← shapeOf? bs
+      let n ← asNat? n
+      let sd ← asNat? sd
+      let feats ← featsOf? feats
+      let ix ← ixsOf? ix
+      let L := mkLazy bs n sd feats
+      match (convertEllipsis ix L.batch.length).bind fun ix' => idxShape ix' L.batch with
+      | none => pure (tagged "err" [])
+      | some ibs => pure (membersToSexp (lazyUpdateAt L ix (mkValue ibs feats)))
   -- (c08.shape (bs ..) n sd (feats ..) (unsqueeze d) | (squeeze d) | (transpose a b) | (permute d ..) | (unbind d))
   | "c08.shape", [bs, n, sd, feats, .list (.atom op :: args)] => do
       let bs ← shapeOf? bs
@@ -298,6 +311,42 @@ def handleC08 (cmd : String) (args : List Sexp) : Option Sexp :=
       | "repeat", reps => pure (membersToSexp (lazyRepeat L (reps.map Int.toNat)))
       | "expand", shape => pure (membersToSexp (lazyExpand L (shape.map Int.toNat)))
       | _, _ => none
+  -- (c08.view (bs ..) n sd (feats ..) (view s ..) | (flatten start end)) : the flatten branch of `_view`:
+  -- stack dim and number of pieces, the kind of every piece (member / lazy sd), the materialised result,
+  -- and the SPEC `T.flattenAt` applied to the dense stack (compared with torch's reshape by the harness)
+  | "c08.view", [bs, n, sd, feats, .list (.atom op :: args)] => do
+      let bs ← shapeOf? bs
+      let n ← asNat? n
+      let sd ← asNat? sd
+      let feats ← featsOf? feats
+      let args ← ints? args
+      let L := mkLazy bs n sd feats
+      let shape? : Option Shape :=
+        match op, args with
+        | "view", sh => some (sh.map Int.toNat)
+        | "flatten", [s, e] =>
+            let r : Int := L.batch.length
+            let s' : Int := if s < 0 then r + s else s
+            let e' : Int := if e < 0 then r + e else e
+            if s' < 0 ∨ s' ≥ r ∨ e' < 0 ∨ e' ≥ r ∨ e' < s' then none
+            else some (L.batch.take s'.toNat ++ [numel ((L.batch.drop s'.toNat).take (e'.toNat - s'.toNat + 1))] ++ L.batch.drop (e'.toNat + 1))
+        | _, _ => none
+      let res : Option (LRes2 Int) :=
+        match op, args with
+        | "view", sh => lazyView L (sh.map Int.toNat)
+        | "flatten", [s, e] => lazyFlatten L s e
+        | _, _ => none
+      match res, shape? with
+      | some (.lazy i ps), some shape =>
+          let kinds := ps.map fun p => match p with
+            | .lazy Li => tagged "lazy" [ofNat Li.sd]
+            | _ => Sexp.atom "member"
+          let spec : Option (TD Int) := (checkIsFlatten shape L.batch).map fun p =>
+            (absL L).mapLeaves shape (fun t => t.flattenAt p.1 (p.2 - p.1 + 1))
+          pure (tagged "ok" [tagged "kind" [.atom "lazy", ofNat i, ofNat ps.length, tagged "pieces" kinds],
+            tagged "value" (tdToSexp (absR2 (.lazy i ps))),
+            tagged "spec" (match spec with | some d => tdToSexp d | none => [])])
+      | _, _ => pure (tagged "err" [])
   -- (c08.get2 (bs ..) n_in n_out sd_in sd_out (feats ..) (ix ..)) : read on a stack of stacks
   | "c08.get2", [bs, nin, nout, sdin, sdout, feats, ix] => do
       let bs ← shapeOf? bs
@@ -325,7 +374,7 @@ def handleC08 (cmd : String) (args : List Sexp) : Option Sexp :=
         match lazySet2 L2 ix (mkValue ibs feats) with
         | none => pure (tagged "err" [])
         | some R => pure (tagged "ok" (tagged "sds" (ofNat R.sd :: R.members.map fun Li => ofNat Li.sd) :: tdToSexp (abs2 R)))
-  -- (c08.shape2 (bs ..) n_in n_out sd_in sd_out (feats ..) (unsqueeze d) | (permute d ..) | (transpose a b)) : shape op on a stack of stacks
+  -- (c08.shape2 (bs ..) n_in n_out sd_in sd_out (feats ..) (unsqueeze d) | (squeeze d) | (permute d ..) | (transpose a b)) : shape op on a stack of stacks
   | "c08.shape2", [bs, nin, nout, sdin, sdout, feats, .list (.atom op :: args)] => do
       let bs ← shapeOf? bs
       let nin ← asNat? nin
@@ -340,7 +389,22 @@ def handleC08 (cmd : String) (args : List Sexp) : Option Sexp :=
         | none => tagged "err" []
         | some R => tagged "ok" (tagged "kind" [.atom "lazy2", ofNat R.sd, ofNat R.members.length,
             tagged "inner_sd" (R.members.map fun Li => ofNat Li.sd)] :: tdToSexp (abs2 R))
+      -- squeeze may return the stack itself / a stack of stacks (`lazy2`), a stack of plain members (`lazy1`:
+      -- the inner stacks returned their only member, or the only inner stack was returned) or a member
+      let outR (r : Option (LRes2 Int)) : Sexp :=
+        match r with
+        | none => tagged "err" []
+        | some (.inner (.lazy Li)) => tagged "ok" (tagged "kind" [.atom "lazy1", ofNat Li.sd, ofNat Li.members.length] :: tdToSexp (absL Li))
+        | some (.inner r') => tagged "ok" (tagged "kind" [.atom "member"] :: tdToSexp (absR r'))
+        | some (.empty b) => tagged "ok" [tagged "kind" [.atom "empty"], tagged "bs" (b.map ofNat)]
+        | some (.lazy sd rs) =>
+            let inner := rs.filterMap fun x => match x with | .lazy Li => some Li.sd | _ => none
+            if inner.length = rs.length then
+              tagged "ok" (tagged "kind" [.atom "lazy2", ofNat sd, ofNat rs.length, tagged "inner_sd" (inner.map ofNat)]
+                :: tdToSexp (absR2 (.lazy sd rs)))
+            else tagged "ok" (tagged "kind" [.atom "lazy1", ofNat sd, ofNat rs.length] :: tdToSexp (absR2 (.lazy sd rs)))
       match op, args with
+      | "squeeze", [d] => pure (outR (lazySqueeze2 L2 d))
       | "unsqueeze", [d] => pure (out (lazyUnsqueeze2 L2 d))
       | "permute", ds => pure (out (lazyPermute2 L2 ds))
       | "transpose", [a, b] => pure (out (lazyTranspose2 L2 a b))
